@@ -7,6 +7,14 @@ _NOTE = "Trusted: jax.make_jaxpr faithfully stages the real code; the E1 interpr
 _MC = "bounded symbolic model checking: jaxprs of the real GFI calls symbolically executed into z3 (all values symbolic, structure enumerated), counterexamples replayed on the real code"
 
 CHECKS = {
+    "C07": (MC, _MC, "Regenerate(sel): unselected sites unchanged, weight = reference newscore-oldscore, new trace equals the reference at its own values, empty selection => same trace and weight 0, for all values and selections (all/none/site/complement/prefix/wildcard/union). " + _BND, _NOTE, "DESIGN.md section 4 C07"),
+    "C10": (MC, _MC, "project(S) equals the sum of reference log-densities of the selected sites and project(S)+project(~S) equals the score, for all values and the enumerated selections. " + _BND, _NOTE, "DESIGN.md section 4 C10"),
+    "C11": (MC, _MC, "vmap/repeat vs (i) N separate calls of the inner program's own GFI and (ii) the reference; a constraint at a symbolic index i changes only element i; repeat == vmap over copies; N=0 is empty with score 0. " + _BND, _NOTE, "DESIGN.md section 4 C11"),
+    "C12": (MC, _MC, "scan, accumulate, reduce, iterate, iterate_final equal their documented Python loops (score, final carry, stacked outputs, per-index choices) after assess/simulate/importance/update/regenerate/index edits at a symbolic position. " + _BND, _NOTE, "DESIGN.md section 4 C12"),
+    "C13": (MC, _MC, "switch/or_else/mix equal 'branch clamp(idx) alone' (reference and the branch's own GFI) for ALL integer indices, flags and logits; index-changing updates included. " + _BND, _NOTE, "DESIGN.md section 4 C13"),
+    "C14": (MC, _MC, "mask with symbolic flag: True => inner program's score/weight/choices/retval, False => 0/0/empty/invalid; all four flag transitions of an update in one query. " + _BND, _NOTE, "DESIGN.md section 4 C14"),
+    "C15": (MC, _MC, "dimap/map/contramap: choices/score/weight are the inner program's on pre(args); retval and retdiff primal equal recomputed post; NoChange retdiffs carry the previous retval, under every single-argument tagging. " + _BND, _NOTE, "DESIGN.md section 4 C15"),
+    "C16": (MC, _MC, "masked_iterate(_final) with a symbolic mask vector and non-identity steps: score sums unmasked steps only; masked_iterate_final leaves the value unchanged on a False step. " + _BND, _NOTE, "DESIGN.md section 4 C16"),
     "C01": (MC, _MC, "For every catalogue program and every history (simulate | importance(S) | importance;update(S,args') | update;update | regenerate(sel) | index edit at a symbolic position) the trace's score/retval equal assess on its own choices and args, for all values. " + _BND, _NOTE, "DESIGN.md section 4 C01"),
     "C03": (MC, _MC, "importance(S): weight equals the sum of independent reference log-densities of exactly the constrained sites, the trace agrees with the constraint where present, empty/full constraints included, for all values. " + _BND, _NOTE, "DESIGN.md section 4 C03"),
     "C05": (MC, _MC, "importance(full);Update(S, args'): new args, choices (constraint on S, previous values elsewhere), weight = reference newscore-oldscore when nothing is resampled, backward constraint = previous values at overwritten addresses, for all values. " + _BND, _NOTE, "DESIGN.md section 4 C05"),
